@@ -2,6 +2,6 @@
 # usage: with_patch.sh <patch> <command...>   apply a seeded patch to /repo, run the command, always undo it
 p="$(readlink -f "$1")"; shift
 git -C /repo apply "$p" || exit 9
-"$@"; rc=$?
+VERIF_SCRATCH_EVIDENCE=1 "$@"; rc=$?
 git -C /repo checkout -- .
 exit $rc
